@@ -135,6 +135,10 @@ def compile_code(
 
     main_module = src[""] if isinstance(src, dict) else src
     if "pytrapic:" in main_module:
+        # directives apply to this compilation only: never modify the caller's options object
+        import copy
+
+        options = copy.copy(options)
         for line in main_module.splitlines():
             if "pytrapic:" not in line:
                 continue
